@@ -288,6 +288,8 @@ def check_container_observers(pp, subs, c, where, case, k=0):
             if num == 'U' and not rs.is_enzyme():
                 continue           # measuring a non-enzyme in activity units is rejected by Unit (C06)
             want = ref.conc(pp, c.contents, s, num, den)
+            if den == 'L' and vL < F(10) ** (1 - prec):
+                continue           # a volume below ten internal resolutions (1e-10 L each) is not judged per litre
             try:
                 got = c.get_concentration(s, cu)
             except ZeroDivisionError:
